@@ -479,6 +479,21 @@ theorem noClass_safelyQuote {K : Char → Bool} (hK : EscapedClass K) (s : Str) 
   · exact hK.not_printable (by unfold Printable; decide)
   · exact hK.not_printable (by have := isHexDigit_toNat h1; unfold Printable; omega)
 
+theorem noClass_safelyQuoteBy {f : Char → Bool} (hf : SafeSet f) {K : Char → Bool} (hK : EscapedClass K)
+    (s : Str) : ∀ c ∈ safelyQuoteBy f s, K c = false := by
+  intro c hc
+  rcases mem_safelyQuoteBy_cases hc with h1 | rfl | h1
+  · exact hK.not_printable (by have := hf.printable h1; unfold Printable; omega)
+  · exact hK.not_printable (by unfold Printable; decide)
+  · exact hK.not_printable (by have := isHexDigit_toNat h1; unfold Printable; omega)
+
+theorem noClass_requoteItem {K : Char → Bool} (hK : EscapedClass K) (quoted : Bool)
+    {s : Str} (h : NoCtl s) : ∀ c ∈ requoteItem quoted s, K c = false := by
+  unfold requoteItem
+  split
+  · exact noClass_safelyQuoteBy safeSet_quoteSafeQ hK _
+  · exact noClass_safelyUnquote _ hK h
+
 theorem noClass_requote {K : Char → Bool} (hK : EscapedClass K) (quoted : Bool) (U : List UInt8)
     {s : Str} (h : NoCtl s) : ∀ c ∈ requote quoted (safelyUnquote U) s, K c = false := by
   unfold requote
@@ -524,7 +539,7 @@ theorem noClass_query : ∀ c ∈ (canonComps puny quoted sf p).query, K c = fal
   rcases mem_canonQuery hc' with rfl | rfl | ⟨y, hy, hcy⟩
   · exact hK.not_printable (by unfold Printable; decide)
   · exact hK.not_printable (by unfold Printable; decide)
-  · exact noClass_requote hK quoted _
+  · exact noClass_requoteItem hK quoted
       (noCtl_of_sub hpc h (fun x hx => h.split.sub_query (hy hx))) c hcy
 
 theorem noClass_fragment : ∀ c ∈ (canonComps puny quoted sf p).fragment.getD [], K c = false := by
